@@ -701,6 +701,7 @@ func (r *c15Run) step(st C15Step) {
 		cw := live[st.W%len(live)]
 		switch st.Op {
 		case "flip":
+			pre := r.readyCount()
 			r.unstable.Add(1)
 			r.tr.mx.Lock()
 			k := r.tr.keys[cw.w.LocalAddr]
@@ -713,21 +714,22 @@ func (r *c15Run) step(st C15Step) {
 			r.mx.Lock()
 			cw.ready = cw.w.Mach.Is1(c15Wk.Ready)
 			r.mx.Unlock()
-			// wait for the supervisor's mirror (push over RPC)
-			before := -1
-			stable := 0
-			r.waitFor(600*time.Millisecond, func() bool {
-				n := r.readyCount()
-				if n == before {
-					stable++
-				} else {
-					stable = 0
+			// wait for the supervisor's mirror (state push over RPC); when the
+			// count does not move (the worker was not counted anyway) exactness is
+			// given up for the rest of the case
+			now := pre
+			moved := r.waitFor(2*time.Second, func() bool {
+				now = r.readyCount()
+				if now != pre {
+					return true
 				}
-				before = n
 				time.Sleep(5 * time.Millisecond)
-				return stable >= 6
+				return false
 			})
-			r.tr.pseudoUnder(&r.unstable, fmt.Sprintf("(EFlip %d %s)", k, coqBool(cw.ready)), before)
+			if moved {
+				r.unstable.Add(-1)
+			}
+			r.tr.pseudo(fmt.Sprintf("(EFlip %d %s)", k, coqBool(cw.ready)), now)
 		case "gone":
 			cw.gone = true
 			cw.w.Stop(true)
@@ -742,11 +744,6 @@ func (r *c15Run) step(st C15Step) {
 		time.Sleep(time.Duration(st.N) * time.Millisecond)
 	}
 	r.quiet(150 * time.Millisecond)
-}
-
-func (t *c15Tracer) pseudoUnder(unstable *atomic.Int32, ev string, ready int) {
-	unstable.Add(-1)
-	t.pseudo(ev, ready)
 }
 
 func c15ExecPool(in *C15Input) *c15Obs {
@@ -1064,6 +1061,10 @@ func c15ExecExplore(in *C15Input, sup, wrk *c15Schema) *c15Obs {
 	for _, op := range in.Ops {
 		var sts am.S
 		for _, i := range op.States {
+			if i < 0 {
+				sts = slices.Clone(names)
+				break
+			}
 			sts = append(sts, names[i%len(names)])
 		}
 		switch op.T {
@@ -1357,6 +1358,9 @@ func runC15(c *Ctx) error {
 		jobs = append(jobs, &job{kind: "gen:pool-real-workers", in: c15GenPool(c.Rng, true)})
 	}
 	runAll(jobs, 6)
+	// the sets cases are small
+	out.SetPrelude(c15CoqSchema("sup", sup) + c15CoqSchema("wrk", wrk))
+	out.shardSize = 600
 	jobs = nil
 	for i := 0; i < nExp; i++ {
 		which, n := "supervisor", len(sup.Names)
@@ -1364,6 +1368,29 @@ func runC15(c *Ctx) error {
 			which, n = "worker", len(wrk.Names)
 		}
 		jobs = append(jobs, &job{kind: "gen:explore-" + which, in: c15GenExplore(c.Rng, which, n)})
+	}
+	// every pair of states added together, from the empty machine and from
+	// {Start} (a negative index = every state, see c15ExecExplore)
+	for _, which := range []string{"supervisor", "worker"} {
+		n := len(sup.Names)
+		start := slices.Index(sup.Names, "Start")
+		if which == "worker" {
+			n = len(wrk.Names)
+			start = slices.Index(wrk.Names, "Start")
+		}
+		for _, base := range []bool{false, true} {
+			for a := 0; a < n; a++ {
+				in := &C15Input{Explore: which}
+				for b := 0; b < n; b++ {
+					in.Ops = append(in.Ops, C15Op{T: 1, States: []int{-1}})
+					if base {
+						in.Ops = append(in.Ops, C15Op{T: 0, States: []int{start}})
+					}
+					in.Ops = append(in.Ops, C15Op{T: 0, States: []int{a, b}})
+				}
+				jobs = append(jobs, &job{kind: "gen:explore-pairs-" + which, in: in})
+			}
+		}
 	}
 	runAll(jobs, 4)
 
